@@ -1160,6 +1160,14 @@ def closure_of_operand(F, body, op, depth=0):
     if pl is None:
         return None
     cp = canon_place(body, pl)
+    if cp["l"] == 1 and body.kind in NESTED_KINDS and cp["p"]:
+        # a captured closure: continue in the creating body
+        e = cp["p"][0]
+        if isinstance(e, dict) and "f" in e and e["o"].startswith("{upvar}") and all(x == "*" for x in cp["p"][1:]):
+            parent, ups = closure_upvar_operands(F, body)
+            if parent is not None and e["f"] in ups:
+                return closure_of_operand(F, parent, ups[e["f"]], depth + 1)
+        return None
     if cp["p"] and not all(e == "*" for e in cp["p"]):
         return None
     sd = body.single_def(cp["l"])
